@@ -48,7 +48,12 @@ class DenseRecord(object):
             on = set(np.nonzero(self.shanks == self.shanks[peak])[0].tolist())
             must_n &= on
             may_n &= on
-        must = set(c for c in must_n if self.amp[c] >= self.cut + self.band)
+        if self.cut == 0:
+            # every amplitude (>= 0) reaches a zero threshold: no rounding can change that, so
+            # channels on which the template is exactly zero are listed as well
+            must = set(must_n)
+        else:
+            must = set(c for c in must_n if self.amp[c] >= self.cut + self.band)
         may = set(c for c in may_n if self.amp[c] >= self.cut - self.band)
         must.add(peak)      # thr <= 1, so the peak itself always qualifies
         may.add(peak)
